@@ -96,7 +96,7 @@ func c19Formatted(v string) string {
 	if g, ok := c19GoVal(v); ok {
 		return pretty.Sprint(g)
 	}
-	return v
+	return pretty.Sprint(v)
 }
 
 func c19Gen(c *vfCtx, emit func(c19Case)) {
